@@ -256,10 +256,14 @@ OnHEnd(m, ev) ==
                pi == IdxOf(m.pubs, LAMBDA p : p.id = r.id /\ p.q = 2 /\ p.rel /\ ~p.relProduced /\ ~p.refused)
            IN IF r.kind \in {"pubrel", "pubrel_early"} /\ pi > 0
                 THEN [m1 EXCEPT !.pubs[pi].relProduced = TRUE] ELSE m1)
-  ELSE LET st == CASE ev.k = "err" -> "err" [] ev.k \in {"nack", "nack_ok"} -> "nack" [] OTHER -> "ok"
-           \* ("err", "nack": the handler returned an error; "nack_ok": it returned a negative
-           \*  acknowledgement itself; anything else the harness answers like "ok")
-       IN [m EXCEPT !.pubs[i].st = st, !.pubs[i].code = ev.r, !.pubs[i].failed = ev.k \in {"err", "nack"},
+  ELSE LET st == CASE ev.k = "err" -> "err"
+                   [] ev.k \in {"nack", "nack_ok"} /\ ev.r >= 128 -> "nack"
+                   [] OTHER -> "ok"
+           \* ("err", "nack": the handler returned an error; "nack_ok": it returned an acknowledgement
+           \*  with a reason code itself - a code below 0x80 (0x10, no matching subscribers) is a success
+           \*  and the exchange goes on as for 0; anything else the harness answers like "ok")
+           code == IF ev.k \in {"nack", "nack_ok"} THEN ev.r ELSE 0
+       IN [m EXCEPT !.pubs[i].st = st, !.pubs[i].code = code, !.pubs[i].failed = ev.k \in {"err", "nack"},
                     !.running = IF @ > 0 THEN @ - 1 ELSE 0]
 
 OnHDrop(m, ev) ==
@@ -303,7 +307,7 @@ OnOutPuback(m, ev) ==
     IN IF p.st = "started" THEN Fail(m1, "C03:acknowledged-before-handler-completed")
        ELSE IF p.st = "err" \/ (p.st = "nack" /\ m.ver = 3) THEN Fail(m1, "C03:acknowledged-although-handler-failed")
        ELSE IF m.ver = 5 /\ p.st = "nack" /\ ev.r # p.code THEN Fail(m1, "C03:negative-ack-code-differs-from-application-mapping")
-       ELSE IF m.ver = 5 /\ p.st = "ok" /\ ev.r # 0 THEN Fail(m1, "C03:success-handler-acknowledged-with-error-code")
+       ELSE IF m.ver = 5 /\ p.st = "ok" /\ ev.r # p.code THEN Fail(m1, "C03:success-handler-acknowledged-with-another-reason-code")
        ELSE m1
   ELSE IF q2 > 0 THEN Fail(m, "C03:qos2-publish-acknowledged-with-puback")
   ELSE IF IdxOf(m.pubs, LAMBDA p : p.id = ev.id /\ p.q = 1 /\ p.st = "arrived" /\ ~p.refused) > 0
@@ -325,7 +329,7 @@ OnOutPubrec(m, ev) ==
     IN IF p.st = "started" THEN Fail(m1, "C03:acknowledged-before-handler-completed")
        ELSE IF p.st = "err" \/ (p.st = "nack" /\ m.ver = 3) THEN Fail(m1, "C03:acknowledged-although-handler-failed")
        ELSE IF m.ver = 5 /\ p.st = "nack" /\ ev.r # p.code THEN Fail(m1, "C03:negative-ack-code-differs-from-application-mapping")
-       ELSE IF m.ver = 5 /\ p.st = "ok" /\ ev.r # 0 THEN Fail(m1, "C03:success-handler-acknowledged-with-error-code")
+       ELSE IF m.ver = 5 /\ p.st = "ok" /\ ev.r # p.code THEN Fail(m1, "C03:success-handler-acknowledged-with-another-reason-code")
        ELSE m1
   ELSE IF IdxOf(m.pubs, LAMBDA p : p.id = ev.id /\ p.q = 2 /\ p.st = "arrived" /\ ~p.refused) > 0
     THEN Fail(m, "C03:acknowledged-before-handler-completed")
